@@ -212,7 +212,44 @@ class History:
     OPS = ['ctor_vec', 'ctor_ang', 'ctor_mat', 'from_str', 'with_axes', 'set_vec', 'set_ang', 'iop_vec', 'imul_ang',
            'imatmul', 'matmul', 'transform_vec', 'transform_ang', 'to_angle', 'vec_to_angle', 'from_basis', 'arith',
            'copies', 'freeze_thaw', 'text', 'mat_ops', 'ang_mul', 'rotate_legacy', 'set_mat', 'tiny_rot', 'gimbal_cancel',
-           'frozen_assign']
+           'frozen_assign', 'identity_ops']
+
+    def op_identity_ops(self):
+        """Operators with a neutral right operand (zero vector, factor 1, the zero rotation, the identity matrix - also spelled
+        as multiples of 360): the result has the value of the left operand but is a NEW object when the left operand is mutable,
+        so editing it leaves the operand alone.  Operands such as Angle(0, 0, 0) are falsy-but-valid inputs."""
+        sm, rng = self.sm, self.rng
+        x = self.pick(sm.Vec, sm.Angle, sm.Matrix)
+        if not isinstance(x, (sm.Vec, sm.Angle, sm.Matrix)):
+            x = self.make(rng.choice((sm.Vec, sm.Angle, sm.Matrix)))
+        zero_ang = rng.choice((sm.Angle(), sm.FrozenAngle(), sm.Angle(0, 360, 720), sm.Angle.from_str('0 0 0'), sm.Matrix().to_angle()))
+        ident_mat = rng.choice((sm.Matrix(), sm.FrozenMatrix(), sm.Matrix.from_angle(0, 360, 0)))
+        if isinstance(x, sm.Vec):
+            forms = [('+ zero vector', lambda: x + sm.Vec()), ('- zero vector', lambda: x - sm.FrozenVec()), ('* 1', lambda: x * 1),
+                     ('* 1.0', lambda: 1.0 * x), ('/ 1', lambda: x / 1), ('@ zero angle', lambda: x @ zero_ang),
+                     ('@ identity matrix', lambda: x @ ident_mat), ('+ (0,0,0)', lambda: x + (0.0, 0.0, 0.0)), ('unary +', lambda: +x)]
+        elif isinstance(x, sm.Angle):
+            forms = [('@ zero angle', lambda: x @ zero_ang), ('@ identity matrix', lambda: x @ ident_mat), ('* 1', lambda: x * 1), ('* 1.0', lambda: 1.0 * x)]
+        else:
+            forms = [('@ zero angle', lambda: x @ zero_ang), ('@ identity matrix', lambda: x @ ident_mat)]
+        label, fn = rng.choice(forms)
+        before = self.raw(x)
+        try:
+            res = fn()
+        except TypeError:
+            return  # the form does not exist for this class
+        self.run.count('neutral_operand_results')
+        if type(res) is not type(x):
+            return
+        if res is x:
+            self.fail(f'{type(x).__name__} {label} returned its left operand itself instead of a new object', 'operator-returns-operand')
+            return
+        self.mutate(res)
+        if self.raw(x) != before:
+            self.fail(f'editing the result of {type(x).__name__} {label} changed the operand', 'operator-returns-operand',
+                      {'before': before, 'after': self.raw(x)})
+        self.log.append(f'{type(x).__name__} {label} -> new object')
+        self.add(res)
 
     def op_frozen_assign(self):
         """Every way of writing to a frozen object.  Whether the attempt raises is not this property's business
